@@ -831,12 +831,14 @@ def check(run):
     specs += make_specs(run.rng, ["java"], [(0, 0, 0, 0), (0, 0, 1, 1)], 18 if quick else 300, [4, 4, 5], cap)
     run.rng.shuffle(specs)
     # the budget cuts the stream off on a loaded machine: hand the Java programs out first, two for one other
-    java = [x for x in specs if x["lang"] == "java"]
-    other = [x for x in specs if x["lang"] != "java"]
-    specs = []
-    while java or other:
-        specs += java[:2] + other[:1]
-        java, other = java[2:], other[1:]
+    # (quick tier only; the thorough stream stays uniformly shuffled over the languages)
+    if quick:
+        java = [x for x in specs if x["lang"] == "java"]
+        other = [x for x in specs if x["lang"] != "java"]
+        specs = []
+        while java or other:
+            specs += java[:2] + other[:1]
+            java, other = java[2:], other[1:]
     exports = programs_stream(run, specs, tables, budget)
     # 4. the checker rejects what it must
     mutant_stream(run, exports, tables, 12 if quick else 40)
